@@ -66,7 +66,7 @@ func c09EmptyIndex(c *Ctx) {
 		return onTrue, !onTrue
 	}
 	n := 0
-	for _, fn := range c.Funcs {
+	for _, fn := range c.subjects() {
 		k := fnKey(fn)
 		if !(strings.HasPrefix(k, "IndexPos.") || k == "NewIndexReadSeeker") {
 			continue
